@@ -28,6 +28,37 @@ fn main() {
     let args: Vec<String> = std::env::args().skip(1).collect();
     vharness::common::install_panic_hook();
     let id = args.first().map(|s| s.as_str()).unwrap_or("");
+    // vcheck <ID> --replay-bytes <target> <file> : replay a fuzzer artifact through the same oracle
+    if args.get(1).map(|s| s.as_str()) == Some("--replay-bytes") {
+        let (Some(target), Some(path)) = (args.get(2), args.get(3)) else {
+            eprintln!("--replay-bytes needs <target> <file>");
+            std::process::exit(2);
+        };
+        let data = std::fs::read(path).unwrap_or_else(|e| {
+            eprintln!("cannot read {path}: {e}");
+            std::process::exit(2)
+        });
+        let r = match vharness::common::catch(|| vharness::fuzzrun::run(target, id, &data)) {
+            Ok(r) => r,
+            Err(p) => Err(vharness::common::Fail::new("harness:panic", p)),
+        };
+        match r {
+            Ok(()) => {
+                println!("REPLAY-OK property={id} file={path}");
+                std::process::exit(0)
+            }
+            Err(f) => {
+                println!("VIOLATION property={id} replay={path}");
+                println!("  signature: {}", f.signature);
+                println!("  {}", f.msg);
+                std::process::exit(1)
+            }
+        }
+    }
+    if id == "seeds" {
+        vharness::seeds::write_all(args.get(1).map(|s| s.as_str()).unwrap_or("/verif/fuzz/seeds"));
+        std::process::exit(0);
+    }
     let code = match id {
         "C01" => dispatch(props::c01::C01, &args),
         "C02" => dispatch(props::c02::C02, &args),
